@@ -35,6 +35,43 @@ def one_history(ctx, index: int, rng: random.Random):
         ctx.rec.notes["history_stats"][k] = ctx.rec.notes["history_stats"].get(k, 0) + v
 
 
+def collection_case(ctx, index: int, rng: random.Random):
+    """HistogramCollection constructor / add refuse differing binnings and stay unchanged."""
+    import numpy as np
+    import physt
+    from physt.histogram_collection import HistogramCollection
+    from .. import gen, snapshot as snap
+
+    rec = ctx.rec
+    rec.mon("C18.fault.refusal")
+    e = gen.edges(rng, rng.randint(1, 6))
+    pairs = gen.pairs_from_edges(e)
+    a = physt.h1(np.asarray(gen.data_for_bins(rng, pairs, 8)), np.array(e), name="a")
+    b = physt.h1(np.asarray(gen.data_for_bins(rng, pairs, 8)), np.array(e), name="b")
+    other_edges = np.linspace(e[0] - 2.2, e[-1] + 1.1, len(e) + 2)
+    c = physt.h1([float(other_edges[1])], other_edges, name="c")
+    which = rng.choice(["ctor", "add", "ctor_binning_and_hists"])
+    raised = False
+    col = HistogramCollection(a, b)
+    with attach.quiet():
+        before = [snap.snapshot(x) for x in col.histograms]
+    try:
+        if which == "ctor":
+            HistogramCollection(a, c)
+        elif which == "add":
+            col.add(c)
+        else:
+            HistogramCollection(a, binning=a.binning)
+    except Exception:
+        raised = True
+    if not raised:
+        rec.fail(monitor="C18.fault.refusal", op=f"collection/{which}", symptom="collection accepted a histogram with different binning / contradictory arguments", diff=["not_refused"], detail={})
+    with attach.quiet():
+        if len(col.histograms) != 2 or any(snap.diff(x, snap.snapshot(y)) for x, y in zip(before, col.histograms)):
+            rec.fail(monitor="C18.fault.refusal", op=f"collection/{which}", symptom="a refused collection operation changed the collection", diff=["members"], detail={})
+    rec.case(["collection", which, e], True, cls=f"collection/{which}")
+
+
 def attach_monitors(ctx):
     ctx.world = World(passive=False)
     attach_world(ctx.world)
@@ -53,3 +90,4 @@ def attach_passive():
 def run(ctx):
     attach_monitors(ctx)
     ctx.run_cases(ctx.scale(350, 3000), one_history)
+    ctx.run_cases(ctx.scale(40, 200), collection_case, salt="collection")
